@@ -173,6 +173,45 @@ fn run_twise(ctx: &Ctx, out: &mut dyn Write) {
     }
 }
 
+/// finding K36: an and-node that lists its (variable-free) true child twice is a legal d-DNNF for the
+/// loader, but remove_unneeded removes the child's sample once per occurrence and panics
+fn run_repeated_child(out: &mut dyn Write) {
+    let lines: Vec<String> = ["nnf 4 4 2", "A 0", "L 1", "L 2", "A 4 0 0 1 2"].iter().map(|l| l.to_string()).collect();
+    let mut s = String::new();
+    writeln!(s, "case c09-repeated-child C09").unwrap();
+    writeln!(s, "info hand-made c2d file: x1 & x2 & true & true, the true node listed twice").unwrap();
+    writeln!(s, "n 2").unwrap();
+    writeln!(s, "src_count 1").unwrap();
+    writeln!(s, "src_models 3").unwrap();
+    s.push_str(&file_block("c2d", &lines));
+    match load(&lines, Some(2)) {
+        Err(e) => writeln!(s, "impl panic {}", e).unwrap(),
+        Ok(d) => {
+            s.push_str(&dump_circuit(&d));
+            for t in 1..=2 {
+                writeln!(s, "op twise {} plain", t).unwrap();
+                twise_log_start();
+                let res = guarded(|| result_text(&d.sample_t_wise(t)));
+                match twise_log_take() {
+                    Some(log) => {
+                        writeln!(s, "olog {}", log.len()).unwrap();
+                        for l in log {
+                            writeln!(s, "o {}", l).unwrap();
+                        }
+                    }
+                    None => writeln!(s, "olog absent").unwrap(),
+                }
+                match res {
+                    Ok(r) => writeln!(s, "r {}", r).unwrap(),
+                    Err(e) => writeln!(s, "panic {}", e).unwrap(),
+                }
+            }
+        }
+    }
+    writeln!(s, "end").unwrap();
+    out.write_all(s.as_bytes()).unwrap();
+}
+
 /// does `usize` subtraction panic on underflow in this build (dev profile) or wrap (release)?
 fn overflow_checks() -> bool {
     guarded(|| {
@@ -233,6 +272,9 @@ fn run_iter(_ctx: &Ctx, out: &mut dyn Write) {
 pub fn run(kind: &str, ctx: &Ctx, out: &mut dyn Write) {
     match kind {
         "c09iter" => run_iter(ctx, out),
-        _ => run_twise(ctx, out),
+        _ => {
+            run_repeated_child(out);
+            run_twise(ctx, out)
+        }
     }
 }
